@@ -49,7 +49,7 @@ FdTable& rootFdTable() { return rootTable; }
 File* lookup(int fd) { FdTable& t = curTable(); auto it = t.m.find(fd); return it == t.m.end() ? nullptr : it->second; }
 bool isSimFd(int fd) { return inRun() && lookup(fd) != nullptr; }
 File* newFile(FileKind k) {
-  File* f = new File(); f->kind = k; f->refs = 0; f->id = nextFileId++; f->nonblock = false; f->unixDomain = false; f->capacity = defaultCap; f->peer = 0; f->peerClosed = false;
+  File* f = new File(); f->kind = k; f->refs = 0; f->id = nextFileId++; f->nonblock = false; f->unixDomain = false; f->capacity = defaultCap; f->peer = 0; f->peerClosed = false; f->inEdge = f->outEdge = 0; f->nospace = false;
   f->connected = f->connecting = f->refused = false; f->connectAt = 0; f->soError = 0; f->localIp = f->peerIp = 0; f->localPort = f->peerPort = 0; f->listening = false; f->counter = 0; f->writers = 0;
   memset(&f->st, 0, sizeof f->st); allFiles.push_back(f); return f;
 }
@@ -64,7 +64,7 @@ void wakeAllNet() { std::vector<int> w; w.swap(netWaiters); for (int id : w) wak
 static void closeFile(File* f) {
   // last descriptor referring to f went away
   switch (f->kind) {
-  case FK_STREAM: if (f->peer) { f->peer->peerClosed = true; f->peer->peer = 0; f->peer = 0; } break;
+  case FK_STREAM: if (f->peer) { f->peer->peerClosed = true; f->peer->inEdge++; f->peer->outEdge++; f->peer->peer = 0; f->peer = 0; } break;
   case FK_LISTENER: if (f->listening) { auto it = listeners.find(f->localPort); if (it != listeners.end() && it->second == f) listeners.erase(it); } for (File* c : f->acceptQ) { if (c->peer) { c->peer->peerClosed = true; c->peer->peer = 0; } } f->acceptQ.clear(); break;
   case FK_PIPE_W: if (f->peer) { if (--f->peer->writers <= 0) f->peer->peerClosed = true; } break;
   case FK_PIPE_R: f->peerClosed = true; break;    // writers see EPIPE via readerGone (peer pointer of the write ends)
@@ -98,7 +98,7 @@ void pump() {
 
 FdStats stats(int fd) { File* f = lookup(fd); FdStats z; memset(&z, 0, sizeof z); return f ? f->st : z; }
 void setDefaultCapacity(size_t b) { defaultCap = b ? b : 1; }
-void setCapacity(int fd, size_t b) { File* f = lookup(fd); if (f) { f->capacity = b ? b : 1; wakeAllNet(); } }
+void setCapacity(int fd, size_t b) { File* f = lookup(fd); if (f) { f->capacity = b ? b : 1; if (f->peer && f->peer->nospace && f->q.size() < f->capacity) { f->peer->nospace = false; f->peer->outEdge++; } wakeAllNet(); } }
 size_t queued(int fd) { File* f = lookup(fd); return f ? f->q.size() : 0; }
 bool peerClosed(int fd) { File* f = lookup(fd); return f ? f->peerClosed : true; }
 void setSendHook(void (*fn)(int, size_t)) { sendHook = fn; }
@@ -110,7 +110,7 @@ size_t acceptQueueLen(int fd) { File* f = lookup(fd); return (f && f->kind == FK
 size_t peerSpace(int fd) { File* f = lookup(fd); if (!f || !f->peer || f->peerClosed) return 0; return f->peer->q.size() < f->peer->capacity ? f->peer->capacity - f->peer->q.size() : 0; }
 
 static void callFailHook(int fd, bool isSend, int err) { NoPreempt np; failHook(fd, isSend, err); }
-static void completeConnect(void* a) { File* f = (File*)a; if (f->refs > 0 && f->connecting) { f->connecting = false; if (!f->refused) f->connected = true; else f->soError = ECONNREFUSED; } }
+static void completeConnect(void* a) { File* f = (File*)a; if (f->refs > 0 && f->connecting) { f->connecting = false; f->inEdge++; f->outEdge++; if (!f->refused) f->connected = true; else f->soError = ECONNREFUSED; } }
 
 uint32_t readiness(File* f, uint32_t want) {
   uint32_t r = 0;
@@ -151,13 +151,14 @@ static ssize_t streamSend(int fd, File* f, const void* buf, size_t n) {
     else if (c == 2 && k > 1) { fault("send_partial"); k = 1; }
     else if (c == 3 && k > 1) { fault("send_partial"); k = k / 2; }
     else if (c == 4 && k > 1) { fault("send_partial"); k = k - 1; }
+    if (k < n) f->nospace = true;
     if (k == 0) {
       if (f->nonblock) { errno = EAGAIN; logEvent("send_eagain", f->id, (int64_t)n); return -1; }
       netBlock("send", -1);
       continue;
     }
     const unsigned char* p = (const unsigned char*)buf;
-    dst->q.insert(dst->q.end(), p, p + k);
+    dst->q.insert(dst->q.end(), p, p + k); dst->inEdge++;
     f->st.bytes_out += k; dst->st.bytes_in += 0;
     logEvent("send", f->id, (int64_t)n, (int64_t)k);
     if (sendHook) { NoPreempt np; sendHook(fd, k); }
@@ -182,6 +183,7 @@ static ssize_t streamRecv(int fd, File* f, void* buf, size_t n) {
     if (c == 1) { fault("recv_partial"); k = 1; } else if (c == 2) { fault("recv_partial"); k = (k + 1) / 2; }
     unsigned char* p = (unsigned char*)buf;
     for (size_t i = 0; i < k; ++i) { p[i] = f->q.front(); f->q.pop_front(); }
+    if (f->peer && (f->peer->nospace || f->unixDomain) && f->q.size() < f->capacity) { f->peer->nospace = false; f->peer->outEdge++; }   /* room again: TCP tells a sender that had found none, a unix socket tells its sender whenever the reader frees a buffer */
     f->st.bytes_in += k;
     logEvent("recv", f->id, (int64_t)n, (int64_t)k);
     wakeAllNet();
@@ -360,8 +362,8 @@ int __wrap_epoll_ctl(int epfd, int op, int fd, struct epoll_event* ev) {
   if (!f) { errno = EBADF; logEvent("epoll_ctl_ebadf", op, fd); return -1; }
   auto it = e->interest.find(fd);
   switch (op) {
-  case EPOLL_CTL_ADD: if (it != e->interest.end()) { errno = EEXIST; return -1; } e->interest[fd] = File::Interest{ev->events, ev->data.u64}; break;
-  case EPOLL_CTL_MOD: if (it == e->interest.end()) { errno = ENOENT; return -1; } it->second = File::Interest{ev->events, ev->data.u64}; break;
+  case EPOLL_CTL_ADD: if (it != e->interest.end()) { errno = EEXIST; return -1; } { File* tf = lookup(fd); e->interest[fd] = File::Interest{ev->events, ev->data.u64, tf ? tf->inEdge - 1 : 0, tf ? tf->outEdge - 1 : 0}; } break;   /* registration and modification report a ready kind once, like the kernel */
+  case EPOLL_CTL_MOD: if (it == e->interest.end()) { errno = ENOENT; return -1; } { File* tf = lookup(fd); it->second = File::Interest{ev->events, ev->data.u64, tf ? tf->inEdge - 1 : 0, tf ? tf->outEdge - 1 : 0}; } break;
   case EPOLL_CTL_DEL: if (it == e->interest.end()) { errno = ENOENT; return -1; } e->interest.erase(it); break;
   default: errno = EINVAL; return -1;
   }
@@ -377,11 +379,12 @@ int __wrap_epoll_wait(int epfd, struct epoll_event* out, int maxev, int timeout)
   if (choose(K_EINTR, 2)) { fault("eintr"); errno = EINTR; return -1; }
   for (;;) {
     pump();
-    std::vector<epoll_event> ready;
+    std::vector<epoll_event> ready; std::vector<int> readyFd;
     for (auto& kv : e->interest) {
       File* f = lookup(kv.first); if (!f) continue;
       uint32_t r = readiness(f, kv.second.events);
-      if (r) { epoll_event ev; ev.events = r; ev.data.u64 = kv.second.data; ready.push_back(ev); }
+      if (r && (kv.second.events & EPOLLET) && f->inEdge == kv.second.seenIn && f->outEdge == kv.second.seenOut) r = 0;   /* edge-triggered: reported only when something happened to the file since its last report - and then with its whole current ready mask, like the kernel */
+      if (r) { epoll_event ev; ev.events = r; ev.data.u64 = kv.second.data; ready.push_back(ev); readyFd.push_back(kv.first); }
     }
     if (!ready.empty()) {
       if (ready.size() > 1) {
@@ -395,6 +398,7 @@ int __wrap_epoll_wait(int epfd, struct epoll_event* out, int maxev, int timeout)
       }
       int n = std::min((int)ready.size(), maxev);
       for (int i = 0; i < n; ++i) out[i] = ready[i];
+      for (int i = 0; i < n; ++i) for (auto& kv : e->interest) if ((kv.second.events & EPOLLET) && kv.second.data == ready[i].data.u64) { File* f = lookup(kv.first); if (!f) continue; kv.second.seenIn = f->inEdge; kv.second.seenOut = f->outEdge; }
       logEvent("epoll_wait", n, (int64_t)ready[0].data.u64 != 0);
       return n;
     }
